@@ -39,7 +39,7 @@ def model_check(ctx):
 
 def scenarios(ctx, shapes, rnd):
     """seeded sample sized by the TLC evaluation budget per family"""
-    budget_ms = (22000 if ctx.quick else 160000)          # CPU time of TLC evaluation per family (4 workers share it)
+    budget_ms = (30000 if ctx.quick else 600000)          # CPU time of TLC evaluation per family (4 workers share it)
     scen = []; blocks = {}
     fam_algs = {}
     for a, (B, L, fam) in ALGS.items(): fam_algs.setdefault(fam, []).append(a)
@@ -89,7 +89,7 @@ def run(ctx):
         builds = fut.result()
     scen, blocks = scenarios(ctx, shapes, rnd)
     ctx.log("%d scenarios, estimated reference blocks per family: %s" % (len(scen), blocks))
-    paths = hashrig.run_scenarios(ctx, builds, scen, "hash", tlc_timeout=(600 if ctx.quick else 3000))
+    paths = hashrig.run_scenarios(ctx, builds, scen, "hash", tlc_timeout=(600 if ctx.quick else 4000))
     nontriv = set((s["alg"], s["msg"], tuple(s["chunks"])) for s in scen if len(s["msg"]) > 0)
     ctx.add(distinct_nontrivial=len(nontriv), scenarios=len(scen), builds=[b for b, _ in builds],
             reference_blocks_evaluated_by_TLC=blocks,
